@@ -1,7 +1,7 @@
 PID = "C12"
 WORKER = "w_c12"
 HEADER = ("From Coq Require Import List ZArith NArith QArith Qcanon.\n"
-          "From Dimod Require Import Base.Util Model.Poly Model.LP Model.LPTok Model.ChkC12.\nImport ListNotations.")
+          "From Dimod Require Import Base.Util Model.Poly Model.LP Model.LPTok Model.LPRead Model.ChkC12.\nImport ListNotations.")
 CHECK_FN = "check"
 N_QUICK = 1200
 N_THOROUGH = 40000
@@ -13,11 +13,14 @@ RULE = ("random LP-expressible CQMs: 0-14 BINARY/INTEGER/REAL variables with exp
         "offsets, empty objective / empty lhs, constraint labels equal to variable labels; loads(dumps(cqm)) compared: variables, vartypes, "
         "bounds, labels exactly (worker), objective / lhs / sense / rhs coefficient-wise and energies at 2 samples in Coq against the term "
         "model; the recorded sequence of _WidthLimitedFile.write calls is wrapped by the Coq model and compared with the text, tokens of the "
-        "text = tokens of the writes. Magnitude stream (12%): right-hand sides +-1e29..1.8e308 and variable bounds at the vartype limits (+-1e30 REAL, +-(2^53-1) INTEGER) for all senses, sense/rhs/bounds compared exactly, energies not probed. Every round trip also feeds the words of the dumped text, classified into tokens, to the Coq reference parser (parse_tokens + reader conventions) and compares objective, constraints (label, lhs, sense, rhs) and variables (type, clamped bounds) with what the C++ reader built. Refusal stream (22%): SPIN variable (used/unused), soft constraint, non-string / empty / 256+ / "
+        "text = tokens of the writes. Magnitude stream (12%): right-hand sides +-1e29..1.8e308 and variable bounds at the vartype limits (+-1e30 REAL, +-(2^53-1) INTEGER) for all senses, sense/rhs/bounds compared exactly, energies not probed. Every round trip also feeds the words of the dumped text, classified into tokens, to the Coq reference parser (parse_tokens + reader conventions) and compares objective, constraints (label, lhs, sense, rhs) and variables (type, clamped bounds) with what the C++ reader built. Label stream (10%): one accepted label - random, or inside the reported defect regions (keywords in any case, inf/nan prefixes, leading ';', free) - as a variable or a constraint label in a small model; whether loads(dumps) gives the model back is compared with the Coq model of the reader's tokenizer built from the keyword/delimiter tables generated from reader.cpp, def.hpp and lp.py (translators/lp_grammar.py). Refusal stream (22%): SPIN variable (used/unused), soft constraint, non-string / empty / 256+ / "
         "bad-first-character / out-of-alphabet label on a variable or a constraint, plus controls: dump must raise exactly when the model "
         "says so and leave nothing loadable. Labels in the reported defect regions (leading ';', LP keywords, inf/nan prefixes, adjacent "
         "subject/to) are kept out of the random stream. non-trivial = model has a term or a constraint; distinct by case JSON")
-TRUSTED = ["model: coq/theories/Model/{LP,Poly,ChkC12}.v (hand written mirror of lp.py dump/_WidthLimitedFile/_validate_label and "
+TRUSTED = ["generated: coq/theories/Gen/Gen_LP.v by translators/lp_grammar.py (LABEL_VALID_CHARS, LABEL_INVALID_FIRST_CHARS, label length, "
+           "TARGET_LINE_LEN and break string of lp.py; sectionkeywordmap, single-character tokens, line-discarding characters, identifier "
+           "delimiters of reader.cpp; LP_KEYWORD_INF/FREE of def.hpp); hand-stated: the prefixes C strtod consumes (digits, '.', inf, nan)",
+           "model: coq/theories/Model/{LP,Poly,ChkC12}.v (hand written mirror of lp.py dump/_WidthLimitedFile/_validate_label and "
            "cylp.pyx copy_expression/model_to_cqm)",
            "model: coq/theories/Model/LPTok.v: token-level printer and a reference parser for the writer's grammar, proved inverse "
            "(C12_parse_print_cqm); the C++ tokenizer/parser extern/filereaderlp is tied to it: the reference parser run on the words of "
